@@ -87,9 +87,9 @@ func SelfCheck(c *Concrete) error {
 		return err
 	}
 	leafFromInter := leaf.CheckSignatureFrom(inter) == nil
-	wantLFI := w.Get("leafPki") == w.Get("interPki") && in(w.Get("leafRole"), "pck", "wrongCN") && w.Get("interSlot") == "inter"
+	wantLFI := w.Get("leafPki") == w.Get("interPki") && in(w.Get("leafRole"), "pck", "wrongCN", "cnUpper", "cnSpace", "cnKelvin") && w.Get("interSlot") == "inter"
 	if w.Get("interSlot") == "root" { // the second block is the root: it signed the leaf iff the leaf was issued by that root directly
-		wantLFI = !in(w.Get("leafRole"), "pck", "wrongCN") && w.Get("leafPki") == w.Get("rootPki")
+		wantLFI = !in(w.Get("leafRole"), "pck", "wrongCN", "cnUpper", "cnSpace", "cnKelvin") && w.Get("leafPki") == w.Get("rootPki")
 	}
 	if leafFromInter != wantLFI {
 		return fmt.Errorf("leaf signed by embedded intermediate=%v, want %v", leafFromInter, wantLFI)
@@ -111,8 +111,8 @@ func SelfCheck(c *Concrete) error {
 		_, verr := leaf.Verify(x509.VerifyOptions{Roots: c.Pool, Intermediates: ip, CurrentTime: c.Clocks["PckCertChain"]})
 		home := w.Get("leafPki")
 		poolHas := map[string]bool{"A": in(w.Get("pool"), "A", "AB", "AI"), "B": in(w.Get("pool"), "B", "AB")}[home]
-		wantPath := poolHas && (w.Get("leafRole") != "pck" && w.Get("leafRole") != "wrongCN" || (w.Get("interPki") == home && w.Get("interSlot") == "inter"))
-		if w.Get("pool") == "AI" && home == "A" && in(w.Get("leafRole"), "pck", "wrongCN") {
+		wantPath := poolHas && (!in(w.Get("leafRole"), "pck", "wrongCN", "cnUpper", "cnSpace", "cnKelvin") || (w.Get("interPki") == home && w.Get("interSlot") == "inter"))
+		if w.Get("pool") == "AI" && home == "A" && in(w.Get("leafRole"), "pck", "wrongCN", "cnUpper", "cnSpace", "cnKelvin") {
 			wantPath = true // the pool itself holds the platform CA that issued the leaf, whatever the chain carries in its second block
 		}
 		if w.Get("leafExtCritical") == "yes" {
@@ -141,7 +141,7 @@ func SelfCheck(c *Concrete) error {
 			}
 			return fmt.Errorf("%s body is not JSON: %v", d.name, err)
 		}
-		if !in(w.Get(d.hdrDim), "ok", "duplicated", "threeCerts") || w.Get(d.hdrDim) == "bitflip" || w.Get(d.meta) == "memberMissing" || w.Get(d.extra) == "dupAfter" {
+		if !in(w.Get(d.hdrDim), "ok", "duplicated", "threeCerts", "caseDuplicate") || w.Get(d.hdrDim) == "bitflip" || w.Get(d.meta) == "memberMissing" || w.Get(d.extra) == "dupAfter" {
 			continue
 		}
 		hv := r.Header[d.hdr][0]
